@@ -34,10 +34,13 @@ type ScopeItem struct {
 	Lock    *bool             `json:"lock"`
 }
 
+// BoundedCheck: a replay driver run on the unchanged tree as a bounded differential check of the real code (thorough
+// tier unless Tier is "quick"). It is a stand-in labelled bounded in the evidence, never counted as proved.
 type BoundedCheck struct {
-	Name  string `json:"name"`
-	Cmd   string `json:"cmd"`
-	Bound string `json:"bound"`
+	Name   string `json:"name"`
+	Driver string `json:"driver"`
+	Bound  string `json:"bound"`
+	Tier   string `json:"tier"`
 }
 
 type KnownFinding struct {
@@ -272,7 +275,7 @@ func cmdCheck(args []string) int {
 	// bounded stand-ins
 	var boundedRes []map[string]any
 	for _, b := range cfg.Bounded {
-		res := runBounded(b, *tier, seed, vd)
+		res := runBounded(b, *tier, seed, vd, prop, failDir)
 		boundedRes = append(boundedRes, res)
 		if res["ok"] != true {
 			violations++
@@ -323,7 +326,7 @@ func cmdCheck(args []string) int {
 	cov := map[string]any{
 		"obligations":              nObl,
 		"discharged":               nProved,
-		"checker_cmd":              fmt.Sprintf("govc check --tier %s %s  (per obligation: z3-new batch, then race z3-new | z3 4.8.12 | cvc5, %ds each)", *tier, prop),
+		"checker_cmd":              fmt.Sprintf("govc check --tier %s %s  (per obligation: z3-new batch, then race z3-new | z3 4.8.12 | cvc5, %ds each)", *tier, prop, timeout),
 		"trusted_base":             tb,
 		"functions_under_contract": funcs,
 		"backends":                 backends,
@@ -367,6 +370,19 @@ func crossCheck(frs []*FuncResult, dir string, timeoutS int) {
 	// kept simple: the race already runs all three solvers; a disagreement would show up as refuted-after-proved.
 }
 
-func runBounded(b BoundedCheck, tier string, seed int, vd string) map[string]any {
-	return map[string]any{"name": b.Name, "ok": true, "bound": b.Bound, "skipped": "not built"}
+func runBounded(b BoundedCheck, tier string, seed int, vd string, prop string, dir string) map[string]any {
+	if tier != "thorough" && b.Tier != "quick" {
+		return map[string]any{"name": b.Name, "ok": true, "bound": b.Bound, "skipped": "thorough tier only"}
+	}
+	rp := &ReplayFile{Property: prop, Obligation: "bounded:" + b.Name, Function: "(bounded differential check of the real code)", Kind: "bounded", Driver: b.Driver}
+	os.MkdirAll(dir, 0o755)
+	rp.Path = filepath.Join(dir, safeFile("bounded__"+b.Name)+".json")
+	t0 := time.Now()
+	runDriver(vd, rp)
+	if !rp.Reproduced && strings.HasPrefix(rp.Outcome, "the solver's input") {
+		rp.Outcome = "bounded run passed on the real code"
+	}
+	d, _ := json.MarshalIndent(rp, "", " ")
+	os.WriteFile(rp.Path, d, 0o644)
+	return map[string]any{"name": b.Name, "ok": !rp.Reproduced, "bound": b.Bound, "driver": b.Driver, "outcome": rp.Outcome, "seconds": time.Since(t0).Seconds(), "log": rp.Path}
 }
